@@ -55,18 +55,30 @@ func newKey(cn string) keyPair {
 }
 
 type redactCase struct {
-	Init []string                 `json:"init"`
+	Init [][]interface{}          `json:"init"` // slots [position, element]
 	Ops  []map[string]interface{} `json:"ops"`
+}
+
+// liveKey is a key currently configured at element slot of a position.
+type liveKey struct {
+	keyPair
+	slot int
 }
 
 type redactor struct {
 	tr      *tracer
 	keys    []keyPair // pool of pre-generated pairs
 	next    int
-	live    map[string][]keyPair // position -> keys currently configured there
+	live    map[string][]liveKey // position -> keys currently configured there
+	pat     map[string]string    // array positions: which elements carry a key, e.g. "100"
 	retired []keyPair            // keys that were configured earlier and replaced
 	life    *Life
 }
+
+// arrayLen is the number of elements of the array-shaped untyped positions (ConfigRedact ArrayLen).
+const arrayLen = 3
+
+func isArrayPos(p string) bool { return p == "sfa" || p == "exta" }
 
 func (r *redactor) take(n int) []keyPair {
 	out := []keyPair{}
@@ -85,37 +97,96 @@ func tlsObj(kp keyPair, server bool) obj {
 	return o
 }
 
-func keysAt(p string) int {
-	if p == "lis_set" {
-		return 2
+func upsertByType(list []interface{}, typ string, entry obj) []interface{} {
+	out := []interface{}{}
+	for _, e := range list {
+		if o, ok := e.(map[string]interface{}); ok && o["type"] == typ {
+			continue
+		}
+		out = append(out, e)
 	}
-	return 1
+	return append(out, entry)
 }
 
-// apply writes position p into the document (initial file) with fresh keys.
-func (r *redactor) docPlace(doc obj, p string) {
-	ks := r.take(keysAt(p))
+func asList(v interface{}) []interface{} {
+	l, _ := v.([]interface{})
+	return l
+}
+
+// docPlace writes position p into the document with fresh keys at the elements K (array positions; the other
+// elements are contexts / servers without an inline key).
+func (r *redactor) docPlace(doc obj, p string, K []int) {
 	srv := doc["servers"].([]interface{})[0].(obj)
 	l := srv["listeners"].([]interface{})[0].(obj)
 	fc := l["filter_chains"].([]interface{})[0].(obj)
+	lk := []liveKey{}
+	one := func() keyPair {
+		k := r.take(1)[0]
+		lk = append(lk, liveKey{k, len(lk)})
+		return k
+	}
+	// array positions: element i carries a key iff i in K
+	elems := func(mk func(i int, k *keyPair) obj) []interface{} {
+		in := map[int]bool{}
+		for _, i := range K {
+			in[i] = true
+		}
+		out := []interface{}{}
+		pat := ""
+		for i := 0; i < arrayLen; i++ {
+			if in[i] {
+				k := r.take(1)[0]
+				lk = append(lk, liveKey{k, i})
+				out = append(out, mk(i, &k))
+				pat += "1"
+			} else {
+				out = append(out, mk(i, nil))
+				pat += "0"
+			}
+		}
+		r.pat[p] = pat
+		return out
+	}
 	switch p {
 	case "lis_ctx":
 		delete(fc, "tls_context_set")
 		delete(r.live, "lis_set")
-		fc["tls_context"] = tlsObj(ks[0], true)
+		fc["tls_context"] = tlsObj(one(), true)
 	case "lis_set":
 		delete(fc, "tls_context")
 		delete(r.live, "lis_ctx")
-		fc["tls_context_set"] = []interface{}{tlsObj(ks[0], true), tlsObj(ks[1], true)}
+		fc["tls_context_set"] = []interface{}{tlsObj(one(), true), tlsObj(one(), true)}
 	case "clu":
-		doc["cluster_manager"].(obj)["clusters"].([]interface{})[0].(obj)["tls_context"] = tlsObj(ks[0], false)
+		doc["cluster_manager"].(obj)["clusters"].([]interface{})[0].(obj)["tls_context"] = tlsObj(one(), false)
 	case "cm":
-		doc["cluster_manager"].(obj)["tls_context"] = tlsObj(ks[0], false)
+		doc["cluster_manager"].(obj)["tls_context"] = tlsObj(one(), false)
 	case "ext":
-		doc["extends"] = []interface{}{obj{"type": "tunnel_agent", "config": obj{"enable": false, "cluster": "C",
-			"hosting_listener": "L", "tls_context": tlsObj(ks[0], false)}}}
+		doc["extends"] = upsertByType(asList(doc["extends"]), "tunnel_agent", obj{"type": "tunnel_agent", "config": obj{"enable": false,
+			"cluster": "C", "hosting_listener": "L", "tls_context": tlsObj(one(), false)}})
+	case "exta": // an extend with a list of servers, each with its own (optional) TLS context
+		servers := elems(func(i int, k *keyPair) obj {
+			o := obj{"address": fmt.Sprintf("10.20.0.%d:443", i+1), "weight": uint64(i + 1)}
+			if k != nil {
+				o["tls_context"] = tlsObj(*k, false)
+			}
+			return o
+		})
+		doc["extends"] = upsertByType(asList(doc["extends"]), "verif_servers", obj{"type": "verif_servers",
+			"config": obj{"mode": "static", "servers": servers}})
 	case "sf":
-		l["stream_filters"] = []interface{}{obj{"type": "verif_tls_holder", "config": obj{"upstream": obj{"tls_context": tlsObj(ks[0], false)}}}}
+		l["stream_filters"] = upsertByType(asList(l["stream_filters"]), "verif_tls_holder", obj{"type": "verif_tls_holder",
+			"config": obj{"upstream": obj{"tls_context": tlsObj(one(), false)}}})
+	case "sfa": // a network filter whose untyped config keeps a list of contexts; some refer to SDS / carry no key
+		set := elems(func(i int, k *keyPair) obj {
+			if k != nil {
+				o := tlsObj(*k, false)
+				o["server_name"] = fmt.Sprintf("s%d.verif", i)
+				return o
+			}
+			return obj{"status": true, "server_name": fmt.Sprintf("s%d.verif", i), "sds_source": obj{"name": "by-sds"}}
+		})
+		fc["filters"] = upsertByType(asList(fc["filters"]), "verif_tls_array_holder", obj{"type": "verif_tls_array_holder",
+			"config": obj{"upstream": obj{"name": "u", "tls_context_set": set}}})
 	default:
 		path, ok := extraPositions[p]
 		if !ok {
@@ -124,21 +195,29 @@ func (r *redactor) docPlace(doc obj, p string) {
 		parent := place(doc, path[:len(path)-1])
 		last := path[len(path)-1]
 		if key, isKey := last.(string); isKey {
-			parent[key] = tlsObj(ks[0], false)
+			parent[key] = tlsObj(one(), false)
 		} else { // element of a list of contexts
 			holder := place(doc, path[:len(path)-2])
-			holder[path[len(path)-2].(string)] = []interface{}{tlsObj(ks[0], false)}
+			holder[path[len(path)-2].(string)] = []interface{}{tlsObj(one(), false)}
 		}
 	}
-	r.live[p] = ks
+	r.live[p] = lk
 }
 
-// runtimePlace performs the runtime update that (re)configures position p with fresh keys.
-func (r *redactor) runtimePlace(p string) error {
-	old := r.live[p]
+func pairs(lk []liveKey) []keyPair {
+	out := []keyPair{}
+	for _, k := range lk {
+		out = append(out, k.keyPair)
+	}
+	return out
+}
+
+// runtimePlace performs the runtime update that (re)configures position p with fresh keys at elements K.
+func (r *redactor) runtimePlace(p string, K []int) error {
+	old := pairs(r.live[p])
 	var err error
 	switch p {
-	case "lis_ctx", "lis_set", "sf":
+	case "lis_ctx", "lis_set", "sf", "sfa":
 		snap := configmanager.VerifSnapshot()
 		cur, ok := snap.Listener["L"]
 		if !ok {
@@ -148,13 +227,13 @@ func (r *redactor) runtimePlace(p string) error {
 		var lo obj
 		json.Unmarshal(b, &lo)
 		doc := obj{"servers": []interface{}{obj{"listeners": []interface{}{lo}}}, "cluster_manager": obj{"clusters": []interface{}{obj{}}}}
-		if p != "sf" {
-			old = append(append([]keyPair{}, r.live["lis_ctx"]...), r.live["lis_set"]...)
+		if p == "lis_ctx" || p == "lis_set" {
+			old = append(pairs(r.live["lis_ctx"]), pairs(r.live["lis_set"])...)
 			fc := lo["filter_chains"].([]interface{})[0].(obj)
 			delete(fc, "tls_context_set")
 			delete(fc, "tls_context")
 		}
-		r.docPlace(doc, p)
+		r.docPlace(doc, p, K)
 		nb, _ := json.Marshal(lo)
 		lc := &v2.Listener{}
 		if err = json.Unmarshal(nb, lc); err != nil {
@@ -170,21 +249,24 @@ func (r *redactor) runtimePlace(p string) error {
 		json.Unmarshal(b, &t)
 		c.TLS = t
 		err = cluster.GetClusterMngAdapterInstance().TriggerClusterAddOrUpdate(c)
-		r.live[p] = ks
+		r.live[p] = []liveKey{{ks[0], 0}}
 	case "cm":
 		ks := r.take(1)
 		b, _ := json.Marshal(tlsObj(ks[0], false))
 		var t v2.TLSConfig
 		json.Unmarshal(b, &t)
 		cluster.GetClusterMngAdapterInstance().UpdateTLSManager(&t)
-		r.live[p] = ks
-	case "ext":
-		ks := r.take(1)
-		raw, _ := json.Marshal(obj{"enable": false, "cluster": "C", "hosting_listener": "L", "tls_context": tlsObj(ks[0], false)})
-		if err = v2.ExtendConfigParsed("tunnel_agent", raw); err == nil {
-			configmanager.SetExtend("tunnel_agent", raw) // what the admin debug API and HandleExtendConfig do
+		r.live[p] = []liveKey{{ks[0], 0}}
+	case "ext", "exta":
+		doc := obj{"servers": []interface{}{obj{"listeners": []interface{}{obj{"filter_chains": []interface{}{obj{}}}}}},
+			"cluster_manager": obj{"clusters": []interface{}{obj{}}}}
+		r.docPlace(doc, p, K)
+		e := doc["extends"].([]interface{})[0].(obj)
+		raw, _ := json.Marshal(e["config"])
+		typ := e["type"].(string)
+		if err = v2.ExtendConfigParsed(typ, raw); err == nil {
+			configmanager.SetExtend(typ, raw) // what the admin debug API and HandleExtendConfig do
 		}
-		r.live[p] = ks
 	}
 	r.retired = append(r.retired, old...)
 	return err
@@ -195,13 +277,17 @@ var endpointQuery = map[string]string{
 	"alllisteners": "?alllisteners", "router": "?router=R", "cluster": "?cluster=C", "listener": "?listener=L",
 }
 
+// leakedIn names every slot whose key occurs in body: "position#element" (+ "/<key pattern>" for array positions).
 func (r *redactor) leakedIn(body string) []string {
 	out := []string{}
 	for p, ks := range r.live {
 		for _, k := range ks {
 			if strings.Contains(body, k.marker) {
-				out = append(out, p)
-				break
+				s := fmt.Sprintf("%s#%d", p, k.slot)
+				if isArrayPos(p) {
+					s += "/" + r.pat[p]
+				}
+				out = append(out, s)
 			}
 		}
 	}
@@ -373,7 +459,7 @@ func runRedact() {
 	tr := newTracer(*tracePth)
 	defer tr.Close()
 	pool := []keyPair{}
-	for i := 0; i < 24; i++ {
+	for i := 0; i < 48; i++ {
 		pool = append(pool, newKey(fmt.Sprintf("k%d.verif", i)))
 	}
 	idx := 0
@@ -388,14 +474,27 @@ func runRedact() {
 		if err := json.Unmarshal(raw, &c); err != nil {
 			return err
 		}
-		r := &redactor{tr: tr, keys: pool, next: i * 7, live: map[string][]keyPair{}}
+		r := &redactor{tr: tr, keys: pool, next: i * 7, live: map[string][]liveKey{}, pat: map[string]string{}}
 		doc := gen.Skeleton(i)
-		for _, p := range c.Init {
-			r.docPlace(doc, p)
+		initK := map[string][]int{}
+		order := []string{}
+		for _, sl := range c.Init {
+			p := sl[0].(string)
+			if _, seen := initK[p]; !seen {
+				order = append(order, p)
+			}
+			initK[p] = append(initK[p], int(sl[1].(float64)))
+		}
+		for _, p := range order {
+			r.docPlace(doc, p, initK[p])
 		}
 		dir := freshDir("redact")
 		path := writeDoc(dir, doc, false)
-		tr.Emit(vh.Ev{"ev": "new", "id": i, "init": strs(c.Init)})
+		initEv := c.Init
+		if initEv == nil {
+			initEv = [][]interface{}{}
+		}
+		tr.Emit(vh.Ev{"ev": "new", "id": i, "init": initEv})
 		life, err := Start(path)
 		if err != nil {
 			tr.Emit(vh.Ev{"ev": "start", "ok": false, "err": trunc(err.Error())})
@@ -407,8 +506,12 @@ func runRedact() {
 			switch op["op"] {
 			case "place":
 				p := op["p"].(string)
-				err := r.runtimePlace(p)
-				ev := vh.Ev{"ev": "place", "p": p, "ok": err == nil}
+				K := []int{}
+				for _, x := range asList(op["k"]) {
+					K = append(K, int(x.(float64)))
+				}
+				err := r.runtimePlace(p, K)
+				ev := vh.Ev{"ev": "place", "p": p, "k": K, "ok": err == nil}
 				if err != nil {
 					ev["err"] = trunc(err.Error())
 				}
@@ -422,7 +525,7 @@ func runRedact() {
 		hs, hmsg := handshakeOK()
 		kept := []string{}
 		for p, ks := range r.live {
-			all := true
+			all := len(ks) > 0
 			for _, k := range ks {
 				if !strings.Contains(string(persisted), strings.Replace(k.key, "\n", "\\n", -1)) {
 					all = false
